@@ -447,6 +447,35 @@ func (e *env) run(op Op, keep *[]held) (msg string) {
 		if uerr != nil || !proto.Equal(m, e.ref) {
 			return fmt.Sprintf("proto Marshal(Load(m)) differs from m (decode error %v)", uerr)
 		}
+		// copies: a destination that held the recursively loaded tree receives the lazily loaded one (leaves where the first
+		// had children); whatever it held before, it must then marshal to the message
+		var dst pgeneric.PathNode
+		tree.CopyTo(&dst)
+		if o2, err := dst.Marshal(&pgeneric.Options{}); err != nil || !bytes.Equal(o2, out) {
+			return fmt.Sprintf("proto CopyTo: the copy marshals to %x (err=%v), the tree to %x", head(o2), err, head(out))
+		}
+		{
+			// (the destination then holds, recursively loaded, a message of the same shape with other text)
+			ob := pmodel.Marshal(pmodel.Zap(e.ref.ProtoReflect()).Interface())
+			ov := pgeneric.NewRootValue(e.pdesc, append(make([]byte, 0, len(ob)+16), ob...))
+			ot := pgeneric.PathNode{Node: ov.Node}
+			if err := ot.Load(true, &pgeneric.Options{}, e.pdesc); err != nil {
+				return "proto Load fails: " + err.Error()
+			}
+			ot.CopyTo(&dst)
+		}
+		lazy := pgeneric.PathNode{Node: v.Node}
+		if err := lazy.Load(false, &pgeneric.Options{}, e.pdesc); err != nil {
+			return "proto Load(lazy) fails: " + err.Error()
+		}
+		lazy.CopyTo(&dst)
+		o3, err := dst.Marshal(&pgeneric.Options{})
+		if err != nil {
+			return "proto Marshal of a copy fails: " + err.Error()
+		}
+		if m3, uerr := pmodel.Unmarshal(e.md, o3); uerr != nil || !proto.Equal(m3, e.ref) {
+			return fmt.Sprintf("proto CopyTo into a destination that held a deeper tree: the copy marshals to another message (decode error %v): %x", uerr, head(o3))
+		}
 		if !bytes.Equal(in, cs.Msg) {
 			return "proto generic reads modified their input"
 		}
